@@ -7,7 +7,12 @@ name="$1"; patch="$2"; shift 2
 dir=/tmp/mut/$name
 rm -rf "$dir"; mkdir -p "$dir"
 rsync -a --exclude .git --exclude vue --exclude ts-client /repo/ "$dir"/
-if [ "$patch" = "-" ]; then (cd "$dir" && patch -p1 -s); else (cd "$dir" && patch -p1 -s < "$patch"); fi
+case "$patch" in
+  -) (cd "$dir" && patch -p1 -s) ;;
+  *.sh) (cd "$dir" && sh "$patch") ;;
+  *) (cd "$dir" && patch -p1 -s < "$patch") ;;
+esac
+(cd "$dir" && export GOFLAGS=-mod=mod GOPROXY=off GOSUMDB=off GOTOOLCHAIN=local && go build ./... 2>&1 | head -5)
 rc=0
 for c in "$@"; do
   VERIF_REPO="$dir" /verif/check "$c" --tier "${TIER:-quick}" 2>&1 | grep -E "^(VIOLATION|OK|KNOWN|\[check\] INCONCL|\[check\] harness build failed)|failed after|panic after" | head -8 || true
